@@ -40,7 +40,7 @@ def run(prop, tier, seed, out):
         cov["distinct_nontrivial"] = r["distinct_nontrivial"]
         cov["rule"] = ("one evaluation = one vector (payload kind x format x schema x source x signer x listed x predicate) run on the real cloudevents.FormatterFilter with random "
                        "content; non-trivial = vectors whose event is forwarded, whose stored document is parsed and checked attribute by attribute")
-        cov["samples"] = r["samples"]
+        cov["samples"] = r.get("samples") or []
         cov["exhaustive"] = True
         out.assumptions += ["optional attributes are read through the library's own cloudevents.Event struct (it spells the content type member 'datacontentype'); encoding/json is trusted"]
         if r["vectors"] < 1000:
